@@ -29,6 +29,11 @@ def t_select(chk, ix):
     rules_select.check_tag_consultation(chk, ix)
     rules_select.check_builder_effects(chk, ix, ("B3", "G3", "G2"))
     rules_parser.check_tags_consumed(chk, ix, "G8")
+    from .. import rules_outline, rules_tags
+    rules_outline.check_row_tags_concrete(chk, ix, "B9")
+    # the expression itself means what it says (shared with C07 / C08)
+    rules_tags.check_v1_end_to_end(chk, ix)
+    rules_tags.check_v2_renderings(chk, ix, chk.tier)
 
 
 def t_rollup(chk, ix):
@@ -42,5 +47,5 @@ def t_rollup(chk, ix):
 
 def run(chk, ix, tier):
     run_parallel(chk, [(t_select, ()), (t_rollup, ()), (T.t_scenario, (("G6", "H2"),))] + T.container_tasks(("R4", "H2")))
-    for r, n in (("G1", 8), ("G2", 6), ("G4", 16), ("G5", 4), ("G6", 1), ("G7", 4), ("G8", 5)):
+    for r, n in (("G1", 8), ("G2", 6), ("G4", 16), ("G5", 4), ("G6", 1), ("G7", 4), ("G8", 5), ("B9", 3), ("U1", 900), ("T4", 200)):
         chk.require_instances(r, n)
